@@ -179,10 +179,22 @@ impl Cnt {
         }
     }
     /// ops: get(c) -> guard id; drop(g); avail(c, w) -> bool; clone(c); every record carries total()
-    fn step(&mut self, op: &str, a: i64, w: i64) -> Value {
+    fn step(&mut self, op: &str, a: i64, w: i64, inl: bool) -> Value {
         let before = self.wakers.counts();
         let mut res = String::new();
         let mut val = 0i64;
+        let inline: std::rc::Rc<std::cell::RefCell<String>> = std::rc::Rc::new(std::cell::RefCell::new("none".into()));
+        if op == "drop" && inl {
+            // the woken task polls `available` again from inside the wake-up
+            let c = self.counters[0].clone();
+            let out = inline.clone();
+            vcore::WAKE_HOOK.with(|h| {
+                *h.borrow_mut() = Some(Box::new(move |_id, waker| {
+                    let cx = Context::from_waker(&waker);
+                    *out.borrow_mut() = if c.available(&cx) { "true".into() } else { "false".into() };
+                }))
+            });
+        }
         let r = catch(|| match op {
             "get" => {
                 let g = self.counters[a as usize].get();
@@ -212,8 +224,10 @@ impl Cnt {
         if let Err(msg) = r {
             res = format!("panic: {msg}");
         }
+        vcore::WAKE_HOOK.with(|h| h.borrow_mut().take());
         let totals: Vec<usize> = self.counters.iter().map(|c| c.total()).collect();
-        json!({"ev": op, "a": a, "w": w, "res": res, "val": val,
+        let inline = inline.borrow().clone();
+        json!({"ev": op, "a": a, "w": w, "res": res, "val": val, "inl": inl, "inline": inline,
                "woken": self.wakers.woken_since(&before), "totals": totals})
     }
 }
@@ -337,7 +351,8 @@ fn main() {
                 trace.emit(&json!({"ev": "reset", "run": run, "cap": cap}));
                 let mut bad = false;
                 for (k, exp) in sch["ops"].as_array().unwrap().iter().enumerate() {
-                    let mut obs = c.step(gets(exp, "op"), geti(exp, "a"), geti(exp, "w"));
+                    let inl = exp.get("inl").and_then(|x| x.as_bool()).unwrap_or(false);
+                    let mut obs = c.step(gets(exp, "op"), geti(exp, "a"), geti(exp, "w"), inl);
                     obs["run"] = json!(run);
                     trace.emit(&obs);
                     steps += 1;
@@ -347,7 +362,8 @@ fn main() {
                             .unwrap()
                             .iter()
                             .all(|t| Some(t) == exp.get("total"));
-                    if !bad && !(expected_ok(exp, &obs) && total_ok) {
+                    let inline_ok = exp.get("inline").is_none() || exp["inline"] == obs["inline"];
+                    if !bad && !(expected_ok(exp, &obs) && total_ok && inline_ok) {
                         bad = true;
                         mismatches.push(json!({"run": run, "step": k, "expected": exp, "observed": obs}));
                     }
